@@ -67,25 +67,20 @@ LowerSeq(q) == [i \in 1..Len(q) |-> Lower(q[i])]
 UpperSeq(q) == [i \in 1..Len(q) |-> Upper(q[i])]
 EqCI(q, lit) == Len(q) = Len(lit) /\ \A i \in 1..Len(q) : Lower(q[i]) = lit[i]   \* lit is lower case
 
-\* split at every occurrence of byte x (like bytes.split)
-RECURSIVE SplitOn(_, _)
+\* split at every occurrence of byte x (like bytes.split); iterative (FoldLeft is Java-backed)
 SplitOn(q, x) ==
-    LET i == IndexOfByte(q, x)
-    IN IF i = 0 THEN <<q>> ELSE <<Slice(q, 1, i - 1)>> \o SplitOn(DropN(q, i), x)
+    FoldLeft(LAMBDA acc, b : IF b = x THEN Append(acc, <<>>) ELSE [acc EXCEPT ![Len(acc)] = Append(@, b)],
+             << <<>> >>, q)
 
-\* decimal / hexadecimal value with saturation at Big (leading zeros allowed: 1*DIGIT)
+\* decimal / hexadecimal value with saturation at Big; leading zeros allowed (1*DIGIT / 1*HEXDIG).
+\* Leading zeros are dropped first so the recursion depth is at most 9 whatever the length.
+SigDigits(q) == LET a == FirstIn(q, 1, Len(q), LAMBDA b : b # 48) IN IF a = 0 THEN <<>> ELSE DropN(q, a - 1)
 RECURSIVE DecAcc(_, _, _)
-DecAcc(q, i, acc) ==
-    IF i > Len(q) THEN acc
-    ELSE IF acc >= Big \div 10 THEN Big
-    ELSE DecAcc(q, i + 1, acc * 10 + DigitVal(q[i]))
-DecVal(q) == DecAcc(q, 1, 0)
+DecAcc(q, i, acc) == IF i > Len(q) THEN acc ELSE DecAcc(q, i + 1, acc * 10 + DigitVal(q[i]))
+DecVal(q) == LET d == SigDigits(q) IN IF Len(d) > 9 THEN Big ELSE DecAcc(d, 1, 0)
 RECURSIVE HexAcc(_, _, _)
-HexAcc(q, i, acc) ==
-    IF i > Len(q) THEN acc
-    ELSE IF acc >= Big \div 16 THEN Big
-    ELSE HexAcc(q, i + 1, acc * 16 + HexVal(q[i]))
-HexValOf(q) == HexAcc(q, 1, 0)
+HexAcc(q, i, acc) == IF i > Len(q) THEN acc ELSE HexAcc(q, i + 1, acc * 16 + HexVal(q[i]))
+HexValOf(q) == LET d == SigDigits(q) IN IF Len(d) > 7 THEN Big ELSE HexAcc(d, 1, 0)
 
 \* literals (lower case) used by the framing rules
 L_chunked == <<99, 104, 117, 110, 107, 101, 100>>
